@@ -39,11 +39,16 @@ class Region:
 
 
 class Ptr:
-    """Pointer with provenance: numeric address = region.base + off (region None: absolute)."""
-    __slots__ = ("region", "off")
+    """Pointer with provenance: numeric address = region.base + off (region None: absolute).
+    `alts`, when set, lists guarded alternatives [(cond, region, off)] for a pointer that may point into
+    different objects (phi/select of pointers to distinct globals); loads go through the alternatives."""
+    __slots__ = ("region", "off", "alts")
 
-    def __init__(self, region, off):
-        self.region, self.off = region, off
+    def __init__(self, region, off, alts=None):
+        self.region, self.off, self.alts = region, off, alts
+
+    def alternatives(self):
+        return self.alts if self.alts else [(z3.BoolVal(True), self.region, self.off)]
 
     def addr(self):
         return self.off if self.region is None else self.region.base + self.off
@@ -223,7 +228,8 @@ class Encoder:
 
     def gep(self, base_ty, base, idx):
         if isinstance(base, Ptr):
-            return Ptr(base.region, self._gep(base_ty, base.off, idx))
+            alts = [(c, r, self._gep(base_ty, o, idx)) for (c, r, o) in base.alts] if base.alts else None
+            return Ptr(base.region, self._gep(base_ty, base.off, idx), alts)
         return self._gep(base_ty, base, idx)
 
     def _gep(self, base_ty, base, idx):
@@ -252,9 +258,17 @@ class Encoder:
 
     # -- memory -------------------------------------------------------------------
     def load(self, m, ptr, nbytes):
-        m, arr = self.region_array(m, ptr.region)
-        bs = [z3.Select(arr, ptr.off + bv(i, 64)) for i in range(nbytes)]
-        return m, (z3.Concat(*reversed(bs)) if nbytes > 1 else bs[0])
+        val = None
+        for (c, rg, off) in reversed(ptr.alternatives()):
+            if rg is None:
+                continue
+            m, arr = self.region_array(m, rg)
+            bs = [z3.Select(arr, off + bv(i, 64)) for i in range(nbytes)]
+            v = z3.Concat(*reversed(bs)) if nbytes > 1 else bs[0]
+            val = v if val is None else z3.If(c, v, val)
+        if val is None:
+            raise EncError("load through a pointer without provenance")
+        return m, val
 
     def store(self, m, ptr, val, nbytes):
         m, arr = self.region_array(m, ptr.region)
@@ -266,16 +280,18 @@ class Encoder:
 
     def in_bounds(self, ptr, nbytes, write):
         """z3 condition: [ptr, ptr+nbytes) lies inside the pointer's own region (nbytes: int or BV64)."""
-        if not isinstance(ptr, Ptr) or ptr.region is None:
-            return z3.BoolVal(False)
-        r = ptr.region
-        if write and not r.writable:
+        if not isinstance(ptr, Ptr):
             return z3.BoolVal(False)
         n = bv(nbytes, 64) if isinstance(nbytes, int) else nbytes
-        c = z3.And(z3.ULE(ptr.off, r.size), z3.ULE(n, r.size - ptr.off))
-        if r.nullable:
-            c = z3.And(c, r.base != 0)
-        return c
+        cs = []
+        for (cond, r, off) in ptr.alternatives():
+            if r is None or (write and not r.writable):
+                continue
+            c = z3.And(cond, z3.ULE(off, r.size), z3.ULE(n, r.size - off))
+            if r.nullable:
+                c = z3.And(c, r.base != 0)
+            cs.append(c)
+        return z3.Or(cs) if cs else z3.BoolVal(False)
 
     def merge_mem(self, c, a, b):
         if a is b:
@@ -660,15 +676,22 @@ class Encoder:
         if isinstance(a, tuple):
             return tuple(self.ite(c, x, y) for x, y in zip(a, b))
         if isinstance(a, Ptr) or isinstance(b, Ptr):
-            if a.region is b.region:
+            if a.region is b.region and not a.alts and not b.alts:
                 return Ptr(a.region, a.off if z3.eq(a.off, b.off) else z3.If(c, a.off, b.off))
+            need_alts = bool(a.alts or b.alts) or (a.region is not None and b.region is not None and a.region is not b.region)
+            alts = None
+            if need_alts:
+                alts = [(z3.And(c, ca), ra, oa) for (ca, ra, oa) in a.alternatives()] + \
+                       [(z3.And(z3.Not(c), cb), rb, ob) for (cb, rb, ob) in b.alternatives()]
+            if a.region is b.region:
+                return Ptr(a.region, z3.If(c, a.off, b.off), alts)
             # re-express in the non-absolute region: numerically exact; a dereference through the
             # "wrong" provenance fails its bounds obligation (conservative), it is never unsound
             if a.region is None:
-                return Ptr(b.region, z3.If(c, a.off - b.region.base, b.off))
+                return Ptr(b.region, z3.If(c, a.off - b.region.base, b.off), alts)
             if b.region is None:
-                return Ptr(a.region, z3.If(c, a.off, b.off - a.region.base))
-            return Ptr(a.region, z3.If(c, a.off, b.region.base + b.off - a.region.base))
+                return Ptr(a.region, z3.If(c, a.off, b.off - a.region.base), alts)
+            return Ptr(a.region, z3.If(c, a.off, b.region.base + b.off - a.region.base), alts)
         if z3.eq(a, b):
             return a
         return z3.If(c, a, b)
@@ -730,7 +753,7 @@ class Encoder:
             w = self.width(ins.ty)
             nb = (w + 7) // 8
             self.safety.append(("bounds:%s:load%d" % (where, nb), "bounds", z3.And(r, z3.Not(self.in_bounds(addr, nb, False)))))
-            if not isinstance(addr, Ptr) or addr.region is None:
+            if not isinstance(addr, Ptr) or (addr.region is None and not addr.alts):
                 raise EncError("load through a pointer without provenance at %s" % where)
             m, val = self.load(m, addr, nb)
             if isinstance(ins.ty, ir.PtrTy):
@@ -768,8 +791,8 @@ class Encoder:
             if w != nb * 8:
                 val = z3.ZeroExt(nb * 8 - w, val)
             self.safety.append(("bounds:%s:store%d" % (where, nb), "bounds", z3.And(r, z3.Not(self.in_bounds(addr, nb, True)))))
-            if not isinstance(addr, Ptr) or addr.region is None:
-                raise EncError("store through a pointer without provenance at %s" % where)
+            if not isinstance(addr, Ptr) or addr.region is None or addr.alts:
+                raise EncError("store through a pointer without (unique) provenance at %s" % where)
             m = self.store(m, addr, val, nb)
         elif op == "extractvalue":
             v = self.const(ins.agg_ty, ins.a, env)
